@@ -796,7 +796,9 @@ func (r *Run) joinSessionCanon(fn *Func) string {
 				}
 			case "models.NewSession":
 			default:
-				ok = false
+				if !r.returnsNewSession(f) {
+					ok = false
+				}
 			}
 		}
 		if ok {
